@@ -162,6 +162,7 @@ def run(res, tier):
             why = oracle.agree(("unroutable",) if spec.table[k][xi][0] == "unroutable" else spec.table[k][xi], oracle.expected(ast, x))
             if why:
                 res.violation({"kind": "life:reference", "text": t, "env": enc(x), "why": why})
+    c11.collision_pairs(res)  # recompile to a near-identical / fingerprint-colliding text must behave like a fresh evaluator of it
     c11.long_histories(res, tier)  # deep cyclic recompile histories: results must stay those of the published scheme
     xproc(res, tier)
     res.set("traces_validated_against_impl", res.cov.get("transitions", 0))
@@ -176,6 +177,8 @@ def replay(data):
     k = data.get("kind", "")
     if k == "life:long":
         return c11.replay_long(data)
+    if k == "life:collision":
+        return c11.replay_collision(data)
     if k.startswith("life:") and "history" in data:
         spec = spec_for("thorough")
         spec.prepare()
